@@ -1230,6 +1230,12 @@ fn family_c12_prefixed_names(out: &mut Vec<Case>) {
     let checks = vec![("d:dataId", "\"x1\"".to_string(), false), ("d:dataDataSource", "\"x2\"".to_string(), false), ("d:aDataB", "\"x3\"".to_string(), false), ("d:dataK", "\"x4\"".to_string(), false),
         ("d:markM", "\"x5\"".to_string(), false), ("m:mark-m", "\"x6\"".to_string(), false), ("m:data-d", "\"x7\"".to_string(), false), ("d:bindTap", "\"x8\"".to_string(), false)];
     out.push(c12_case("c12/prefixed-names".to_string(), tpl.to_string(), checks));
+    // a dash followed by a character without an upper-case form (digit, `_`, another dash): only the character directly
+    // behind a dash is affected, later letters keep their case (seed C12-17)
+    let tpl = "<v data-col-2nd=\"y1\" data-item-_id=\"y2\" data-a--b=\"y3\" data-p-3d-q=\"y4\" data-w-1-2x=\"y5\"/>";
+    let checks = vec![("d:col2nd", "\"y1\"".to_string(), false), ("d:item_id", "\"y2\"".to_string(), false), ("d:aB", "\"y3\"".to_string(), false),
+        ("d:p3dQ", "\"y4\"".to_string(), false), ("d:w12x", "\"y5\"".to_string(), false)];
+    out.push(c12_case("c12/dash-nonletter-names".to_string(), tpl.to_string(), checks));
 }
 
 /// dev mode hands the runtime the list of attribute names each element carries (`R.devArgs(N).A`): the names are constants
